@@ -681,7 +681,7 @@ fn sweep_large(rec: &Recorder, thorough: bool) -> Tally {
     let sizes: Vec<(usize, usize, usize)> = if thorough {
         vec![(255, 1, 0), (256, 2, 0), (257, 3, 1), (1999, 2, 0), (2000, 2, 0), (2001, 2, 0), (5000, 2, 27), (70000, 2, 0), (3, 255, 0), (3, 256, 0), (3, 200, 49), (3, 2, 50), (3, 2, 51), (3, 2, 300), (300000, 3, 1000)]
     } else {
-        vec![(255, 1, 0), (256, 2, 0), (257, 3, 1), (2000, 2, 0), (2001, 2, 27), (5000, 2, 0), (3, 255, 0), (3, 256, 0), (3, 2, 50), (3, 2, 51), (3, 2, 300), (70000, 3, 100)]
+        vec![(255, 1, 0), (256, 2, 0), (257, 3, 1), (2000, 2, 0), (2001, 2, 27), (5000, 2, 0), (3, 255, 0), (3, 256, 0), (3, 257, 0), (3, 300, 0), (3, 512, 0), (3, 2, 50), (3, 2, 51), (3, 2, 300), (70000, 3, 100)]
     };
     for (timecnt, typecnt, leapcnt) in sizes {
         let mut b = Block::default();
@@ -696,14 +696,25 @@ fn sweep_large(rec: &Recorder, thorough: bool) -> Tally {
         for k in 0..leapcnt {
             b.leaps.push((78_796_800 + k as i64 * 31_536_000, k as i32 + 1));
         }
-        for version in [0u8, b'2', b'3'] {
+        // with and without the two indicator vectors (their counts equal the type count, which may exceed one octet)
+        let plain = b.clone();
+        for (version, ind) in [(0u8, 0u8), (b'2', 0), (b'3', 0), (0, 1), (b'2', 1), (b'2', 2)] {
+            let mut b = plain.clone();
+            match ind {
+                1 => {
+                    b.isstd = vec![1; typecnt];
+                    b.isut = (0..typecnt).map(|k| (k % 2) as u8).collect();
+                }
+                2 => b.isstd = (0..typecnt).map(|k| (k % 2) as u8).collect(),
+                _ => {}
+            }
             if version == 0 && (b.trans.iter().any(|&(t, _)| t > i32::MAX as i64 || t < i32::MIN as i64) || b.leaps.iter().any(|&(t, _)| t > i32::MAX as i64)) {
                 continue;
             }
             let small = Block { types: vec![(0, 0, 0)], chars: b"UTC\0".to_vec(), ..Default::default() };
             let f = if version == 0 { tzif::file(0, &b, None, None) } else { tzif::file(version, &small, Some(&b), Some(b"")) };
             let before = tl.rejected;
-            check_file(&f, &format!("large: timecnt={timecnt} typecnt={typecnt} leapcnt={leapcnt} version={version}"), rec, "large_tables", &mut tl);
+            check_file(&f, &format!("large: timecnt={timecnt} typecnt={typecnt} leapcnt={leapcnt} version={version} indicators={ind}"), rec, "large_tables", &mut tl);
             if tl.rejected > before {
                 rejected_names.push(format!("timecnt={timecnt} typecnt={typecnt} leapcnt={leapcnt} version={version}: {:?}", tzif::decode(&f).map(|d| expected_zone(&d).is_some())));
             }
